@@ -45,7 +45,9 @@ def make_case(rc):
         if via == 'direct':
             out = I.outcome(lambda: getattr(rt, '_' + k)(s, mo))
         else:
-            out = I.eval_formula('=%s(A1,B1)' % k.upper(), {'A1': s, 'B1': mo}, addr='H9')
+            # the months argument as a plain reference, or as an expression that begins with one (B1*C1, B1+D1 with C1 = 1, D1 = 0)
+            arg = ['B1', 'B1*C1', 'B1+D1', 'B1*1', '(B1)', 'D1+B1'][rc.get('argform', 0)] if isinstance(mo, int) and not isinstance(mo, bool) else 'B1'
+            out = I.eval_formula('=%s(A1,%s)' % (k.upper(), arg), {'A1': s, 'B1': mo, 'C1': 1, 'D1': 0}, addr='H9')
         coq = 'C%s %s %s %s' % (k.capitalize(), C.cval(s), C.cval(mo), C.cres(out))
         nt = True
     elif k == 'datedif':
@@ -118,7 +120,7 @@ def gen_recipes(rng, n):
             out.append({'kind': 'ymd', 'w': rng.randint(0, 2), 'v': rdate(rng, True), 'via': via})
         elif r < 0.58:
             mo = rng.choice([rng.randint(-60, 60), rng.randint(-60, 60), 2.7, -1.5, 0, 12, -12, 1200])
-            out.append({'kind': rng.choice(['edate', 'eomonth']), 's': rdate(rng, True), 'm': C.jenc(mo), 'via': via})
+            out.append({'kind': rng.choice(['edate', 'eomonth']), 's': rdate(rng, True), 'm': C.jenc(mo), 'via': via, 'argform': rng.randrange(6)})
         elif r < 0.8:
             s, e = rdate(rng), rdate(rng)
             if rng.random() < 0.3:
